@@ -1,7 +1,7 @@
 (* C05 — authenticated encryption round-trips and rejects forgeries. Statements only.
    [E] is an arbitrary block function (key -> block -> block); [aes] is the Gallina AES the
    correspondence check runs against crypto.Key.Seal / Key.Open. *)
-From Restic Require Import Base.Prelude Gen.ParamsC05 Model.C05m Proofs.C05p.
+From Restic Require Import Base.Prelude Gen.ParamsC05 Model.C05m Proofs.C05p Proofs.C05p_wf.
 Import C05m.
 
 (* Round trip: whatever Seal returns (for every plaintext of every length, every usable key and nonce,
@@ -85,6 +85,19 @@ Theorem C05_nonce_flip_rejected : forall E k n n' dst c,
   open E k n' dst (c ++ mac E k n c) = OUnauth.
 Proof. exact nonce_flip_rejected. Qed.
 
+(* The Gallina AES (128/256) maps well-formed keys and blocks to well-formed 16-byte blocks; hence for the
+   concrete cipher the only premise left for a changed nonce is that AES_K separates the two nonces. *)
+Theorem C05_aes_wf : forall k b,
+  (length k = 16 \/ length k = 32)%nat -> Forall byte_ok k -> wfl 16 b -> wfl 16 (aes k b).
+Proof. exact aes_wf. Qed.
+
+Theorem C05_nonce_flip_rejected_aes : forall k n n' dst c,
+  valid_key k = true -> length (kK k) = 16%nat -> Forall byte_ok (kK k) ->
+  wfl 16 n -> wfl 16 n' -> valid_nonce n' = true ->
+  aes (kK k) n' <> aes (kK k) n ->
+  open aes k n' dst (c ++ mac aes k n c) = OUnauth.
+Proof. exact nonce_flip_rejected_aes. Qed.
+
 (* Another key is accepted exactly when its MAC of the ciphertext is the same. *)
 Theorem C05_key_swap_accepted_iff : forall E k k' n dst c,
   valid_key k' = true -> length n = iv_size -> valid_nonce n = true ->
@@ -155,6 +168,8 @@ Print Assumptions C05_ct_flip_rejected_unless_collision.
 Print Assumptions C05_poly_is_textbook.
 Print Assumptions C05_nonce_flip_rejected.
 Print Assumptions C05_key_swap_accepted_iff.
+Print Assumptions C05_aes_wf.
+Print Assumptions C05_nonce_flip_rejected_aes.
 Print Assumptions C05_forgery_rejection_refuted.
 Print Assumptions C05_key_swap_rejection_refuted.
 Print Assumptions C05_kdf_accepts_sound.
